@@ -30,6 +30,8 @@ def M(prop: str, name: str, rel: str, old: str, new: str, expect: Optional[str],
 
 
 def _apply(repo: Repo, m: Dict[str, Any]) -> Optional[Dict[str, str]]:
+    if m.get('overlay') is not None:
+        return dict(m['overlay'])               # a generated variant (alpha-renaming): the edited text itself
     overlay: Dict[str, str] = {}
     for rel, old, new in [(m['rel'], m['old'], m['new'])] + list(m['also']):
         src = overlay.get(rel, repo.src(rel))
@@ -117,6 +119,45 @@ def corpus(props: List[str]) -> List[Dict[str, Any]]:
         for p in props:
             if p in rec['props']:
                 out.append(M(p, rec['name'], eds[0][0], eds[0][1], eds[0][2], None, also=list(eds[1:])))
+    out.extend(alpha_corpus(props))
+    return out
+
+
+def alpha_corpus(props: List[str]) -> List[Dict[str, Any]]:
+    """for every file a property's check reads: each function / macro of it with all its locals renamed (generated from the current
+    source; C additionally with the parameters of its static functions renamed)"""
+    from . import alpha
+    out: List[Dict[str, Any]] = []
+    base = Repo()
+    gen_cache: Dict[Tuple[str, bool], List[Tuple[str, str]]] = {}
+    for p in props:
+        class Rec(Repo):
+            def src(self, rel: str) -> str:
+                seen.add(rel)
+                return super().src(rel)
+        seen: set = set()
+        mod = importlib.import_module(f'fjverif.rules.{p.lower()}')
+        try:
+            mod.check(Report(p, 'quick'), Rec())
+        except Exception:      # noqa: BLE001 - the check itself reports that; no variants then
+            continue
+        for rel in sorted(seen):
+            for params in (False, True):
+                if params and not rel.endswith('.c'):
+                    continue
+                key = (rel, params)
+                if key not in gen_cache:
+                    alpha.PARAMS = params
+                    try:
+                        text = base.src(rel)
+                        gen_cache[key] = (alpha.py_variants(rel, text) if rel.endswith('.py') else alpha.c_variants(rel, text) if rel.endswith('.c')
+                                          else alpha.fj_variants(rel, text) if rel.endswith('.fj') else [])
+                    except Exception:      # noqa: BLE001
+                        gen_cache[key] = []
+                    alpha.PARAMS = False
+                for q, new in gen_cache[key]:
+                    out.append(dict(prop=p, name=f'ALPHA {rel.split("/")[-1]}:{q}' + (' (parameters)' if params else ''), rel=rel, old='', new='', expect=None,
+                                    count=1, also=[], overlay={rel: new}))
     return out
 
 
